@@ -53,6 +53,7 @@ type interpreter struct {
 	pools              map[*value][]value
 	forceInit          *ssa.Function
 	regexes            map[*value]*regexHandle
+	sch                *sched
 	nowHook            *value // harness clock cell (unix nanos), if the harness installed one
 	lastNow            value
 }
@@ -199,6 +200,9 @@ func (fr *frame) runDefer(d *deferred) {
 			r := recover()
 			if pe, isEnd := r.(pathEnd); isEnd {
 				panic(pe)
+			}
+			if pa, isAb := r.(pathAbort); isAb {
+				panic(pa)
 			}
 			if _, isT := r.(targetPanic); !isT {
 				panic(r) // interpreter bug: do not disguise as target panic
@@ -596,6 +600,9 @@ func runFrame(fr *frame) {
 		r := recover()
 		if pe, ok := r.(pathEnd); ok {
 			panic(pe)
+		}
+		if pa, ok := r.(pathAbort); ok {
+			panic(pa)
 		}
 		if _, ok := r.(targetPanic); !ok {
 			// interpreter-internal failure: annotate and propagate as an engine error
